@@ -132,6 +132,14 @@ void typed_case(Ctx &c, uint32_t kind, uint8_t nodeid, uint32_t block, bool enum
   int w = (kind % 3) == 0 ? 1 : (kind % 3) == 1 ? 2 : 4;
   bool direct = (kind / 3) & 1, nid = (kind / 6) & 1;
   Sim s(c); s.nodeid = nodeid; s.init_bare();
+  // every other case the application assigns the node id at run time, the way the API offers it for a node in INITIALISATION (CONmtSetNodeId) - decided from
+  // values already drawn, no tape choice; the id the node then reports is the one node-id-relative entries are relative to
+  if ((kind + block + nodeid) % 2) {
+    s.node->Nmt.Node = s.node; s.node->Nmt.Mode = CO_INIT; s.node->NodeId = (uint8_t)(nodeid == 1 ? 2 : 1);
+    edge_reset(); CONmtSetNodeId(&s.node->Nmt, nodeid); uint8_t got = CONmtGetNodeId(&s.node->Nmt);
+    CHECK(c, got == nodeid && s.node->Error == CO_ERR_NONE, "nodeid-relative-store", "CONmtSetNodeId(%u) on a node in INITIALISATION: the node reports node id %u (node error %d)", nodeid, got, (int)s.node->Error);
+    c.cls("node-id-assigned-through-CONmtSetNodeId");
+  }
   // dictionary: the entry under test at 2000:01 plus one referenced entry of each other width (mismatch probes)
   uint32_t *store = (uint32_t *)s.alloc(w, "value");   // exactly w bytes: a wider access is an ASan report
   uint8_t fl = (uint8_t)(CO_OBJ_____RW | (direct ? CO_OBJ_D_____ : 0) | (nid ? CO_OBJ__N____ : 0));
